@@ -6,9 +6,48 @@ use std::collections::VecDeque;
 use vkit::payload::{self, Heavy};
 use vkit::{json, ledger, Value};
 
+/// what a stopping callback writes to
+struct CState {
+    stop: usize,
+    calls: usize,
+    got: Vec<Heavy>,
+}
+extern "C" fn cfn(c: &mut CState, x: Heavy) -> bool {
+    c.calls += 1;
+    c.got.push(x);
+    !(c.stop > 0 && c.calls >= c.stop)
+}
+type DynF = Box<dyn FnMut(Heavy) -> bool>;
+
+/// A stopping callback target.  The OpaqueCallback over it is made ONCE, when the sink is made, and the same callback
+/// object is then lent to every feed that takes it by reference (feed_into_mut, Extend): a callback that has asked
+/// one feed to stop is invoked again by the next feed (Feed!Offered).  Only feed_into, which consumes its callback,
+/// gets a fresh one over the same state.
+struct ClosureSink {
+    cb: OpaqueCallback<'static, Heavy>,
+    _f: Option<Box<DynF>>,
+    st: Box<CState>,
+}
+impl ClosureSink {
+    fn new(stop: usize) -> Self {
+        let mut st = Box::new(CState { stop, calls: 0, got: vec![] });
+        let p: *mut CState = &mut *st;
+        if (stop + payload::next_id()) % 2 == 1 {
+            // a C-style callback: explicit context + extern "C" function (Callback::new, From<Callback> for OpaqueCallback)
+            let cb = cglue::callback::Callback::new(unsafe { &mut *p }, cfn).into();
+            ClosureSink { cb, _f: None, st }
+        } else {
+            let mut f: Box<DynF> = Box::new(Box::new(move |x: Heavy| cfn(unsafe { &mut *p }, x)));
+            let pf: *mut DynF = &mut *f;
+            let cb = (unsafe { &mut *pf }).into();
+            ClosureSink { cb, _f: Some(f), st }
+        }
+    }
+}
+
 enum Sink {
     None,
-    Closure { stop: usize, calls: usize, got: Vec<Heavy> },
+    Closure(ClosureSink),
     Vec { calls_unknown: (), got: Vec<Heavy> },
     Extend { got: VecDeque<Heavy> },
 }
@@ -65,29 +104,17 @@ impl World {
             }};
         }
         match sink {
-            // a C-style callback: explicit context + extern "C" function (Callback::new, From<Callback> for OpaqueCallback)
-            Sink::Closure { stop, calls, got } if (*stop + payload::next_id()) % 2 == 1 => {
-                struct Ctx<'a> {
-                    stop: usize,
-                    calls: &'a mut usize,
-                    got: &'a mut Vec<Heavy>,
+            Sink::Closure(c) => match via {
+                "feed_into" => {
+                    let p: *mut CState = &mut *c.st;
+                    Some(items.feed_into(cglue::callback::Callback::new(unsafe { &mut *p }, cfn).into()))
                 }
-                extern "C" fn cfn(c: &mut Ctx, x: Heavy) -> bool {
-                    *c.calls += 1;
-                    c.got.push(x);
-                    !(c.stop > 0 && *c.calls >= c.stop)
+                "feed_into_mut" => Some(items.feed_into_mut(&mut c.cb)),
+                _ => {
+                    c.cb.extend(items);
+                    None
                 }
-                let mut ctx = Ctx { stop: *stop, calls, got };
-                run!(cglue::callback::Callback::new(&mut ctx, cfn).into())
-            }
-            Sink::Closure { stop, calls, got } => {
-                let mut f = |x: Heavy| {
-                    *calls += 1;
-                    got.push(x);
-                    !(*stop > 0 && *calls >= *stop)
-                };
-                run!((&mut f).into())
-            }
+            },
             Sink::Vec { got, .. } => run!(got.into()),
             Sink::Extend { got } => run!(got.from_extend()),
             Sink::None => unreachable!(),
@@ -129,7 +156,7 @@ impl World {
                 ledger::track(|| drop(old));
                 let stop = e["stop"].as_u64().unwrap() as usize;
                 self.sink = match e["kind"].as_str().unwrap() {
-                    "closure" => Sink::Closure { stop, calls: 0, got: vec![] },
+                    "closure" => ledger::track(|| Sink::Closure(ClosureSink::new(stop))),
                     "vec" => Sink::Vec { calls_unknown: (), got: vec![] },
                     _ => Sink::Extend { got: VecDeque::new() },
                 };
@@ -152,7 +179,7 @@ impl World {
             }
             "FeedRef" => {
                 // the source is lent, not given: what was not offered must still be in it afterwards
-                let via = if e["via"] == "extend_ref" { "extend" } else { "feed_into" };
+                let via = if e["via"] == "extend_ref" { "extend" } else if payload::next_id() % 2 == 0 { "feed_into_mut" } else { "feed_into" };
                 let it: &mut QSrc = &mut **self.src.as_mut().unwrap();
                 let sink = &mut self.sink;
                 let r = ledger::track(|| World::feed(sink, it, via));
@@ -212,7 +239,7 @@ impl World {
         let src = self.src.as_ref().map(|s| ids(s.0.borrow().iter())).unwrap_or_default();
         let (got, calls) = match &self.sink {
             Sink::None => (vec![], 0),
-            Sink::Closure { got, calls, .. } => (ids(got.iter()), *calls),
+            Sink::Closure(c) => (ids(c.st.got.iter()), c.st.calls),
             Sink::Vec { got, .. } => (ids(got.iter()), got.len()),
             Sink::Extend { got } => (ids(got.iter()), got.len()),
         };
